@@ -815,6 +815,10 @@ func (w *joeWorld) evaluate(res verifhook.Result, bubblePanic string) {
 		o.probe("harness: bubble ended with " + bubblePanic)
 		o.Inconclusive = true
 	}
+	for _, r := range w.sim.Races() {
+		o.probe("lockset report: " + r.Site)
+		o.violate("C13", "data-race-in-provider", "lockset violation: %s", r.String())
+	}
 	w.checkShutdownResults()
 	w.checkPublishResults()
 	w.checkSubscribeResults()
